@@ -346,15 +346,18 @@ CHECKS = {
         design_ref="§6 C16, §10"),
     "C17": dict(
         level="proof",
-        text="deser_model is a total Gallina function (structural recursion on the proto: termination for every proto) and "
+        text="deser_model is a total Gallina function (structural recursion on the proto: termination for every proto); "
              "C17_consistent is proved with NO well-formedness hypothesis: whenever deserialization returns an IR, the "
-             "use-def/ownership invariant I1-I7 holds. The re-serialization fixpoint is stated but not proved: it is "
-             "evaluated per case inside Coq and compared with the implementation. Tie: 28 field-level mutation kinds, "
-             "byte-level mutations and random protos; outcome class, canonical IR and re-serialized proto compared in Coq; "
-             "the oracle checks I1-I7 through public accessors, the fixpoint and absence of file access (audit hook).",
-        note=TRUST + "Leaf payloads opaque (C02/C04); Python recursion limit; IR<10 function value-info, device configurations, "
-             "quantization annotations and invalid UTF-8 are oracle-only.",
-        technique="Coq proof (totality, consistency of any returned IR) + per-case Coq evaluation of the fixpoint clause",
+             "use-def/ownership invariant I1-I7 holds; C17_ser_fixpoint is proved for EVERY proto: if deser p returns an IR "
+             "and serializing it returns q, then q deserializes and re-serializes to q (generalised unfolding handling "
+             "placeholders, duplicated/empty input names, unknown outputs), under three boolean contracts on the opaque leaf "
+             "(de)serializers that are evaluated by vm_compute on every accepted case. Tie: 28+ field-level mutation kinds, "
+             "byte-level mutations and random protos; outcome class, canonical IR and re-serialized proto compared inside "
+             "Coq; the oracle checks I1-I7 through public accessors, the fixpoint and absence of file access (audit hook "
+             "during from_proto and during name/dtype/shape/size inspection).",
+        note=TRUST + "Leaf payloads opaque (C02/C04) with contracts np_ok, np_idem, leaf_fill_m; Python recursion limit; IR<10 "
+             "function value-info, device configurations, quantization annotations and invalid UTF-8 are oracle-only.",
+        technique="Coq proof (totality, consistency of any returned IR, re-serialization fixpoint) + vm_compute correspondence on mutated protos",
         design_ref="§6 C17, §10"),
     "C18": dict(
         level="proof",
